@@ -12,9 +12,16 @@
     `C08_neg_<d>` / `C08_large_<d>`  a negative / too large length prefix makes `d` return `Res.err`;
     `C08_work_<d>`   the number of loop iterations `d` performs is bounded by a linear function of the bytes it
                      consumed (residual ≤ initial is part of every bound: nothing is ever given back).
-  A decoder that is modelled later (palette containers, chunk sections, chunks, block entities, text components,
-  the typed nbt decoder) is added as one more block; the generic closure lemmas it needs are in
-  GoMC.Lemmas.NoPanic (`noPanic_*`, `cons_*`, `*Iters_bound`).
+  PART 2 (the blocks after `dynbt.Value`): the decoders whose models are owned by other properties — the paletted
+  container (C12: Model/Palette), chunk section / chunk packet / block entity / light block (C13: Model/ChunkWire), the
+  typed nbt decoder behind `pk.NBT` and `NBTField` (C02/C03: Model/NBTDecode, NBTTyped, NBTField), the JSON text
+  component (C17: Model/Chat on the JSON tree + the String frame, Model/ChatWire) and the registries over `NBTField`.
+  Their totality theorems are re-exported from the owning packages; the "negative or inconsistent length ⇒ error"
+  clauses those packages did not state (palette size, data-array length, height-map length, chunk data length, typed
+  nbt array / list / string lengths, the String frame of a JSON component) are proved from the models
+  (GoMC.Lemmas.NoPanicFold).  No work bound is stated for these decoders: the owning packages proved none (C03 lists
+  it as OPEN: fuel independence of the nbt models on ill-formed input).  `chat.Message` in NBT form has no Lean model
+  yet (C17 stage 2): no theorem here speaks about it.
 
   Models: VarInt/VarLong (Model/VarInt), every field type and combinator (Model/Fields, Model/Combinators,
   `codec t` over the term language `Spec.Ty`), `Packet.Scan`, BitStorage (Model/BitStorage), frame unpacking
@@ -31,16 +38,28 @@
   * command dispatcher: `WellBuilt g` (what the builder API guarantees).
   * memory: a declared length is allocated before it is read (String, ByteArray, BitSet, Ary, BitStorage): up to
     2^31 elements.  Memory exhaustion is outside the property (DESIGN §7) and outside the model.
+  * part 2: `0 ≤ gbits ≤ 64` for the registry width a paletted container was built with (`SecSane`, `ChunkSane`: the
+    real ones are 15 and 6; the width is a shift count); typed nbt: `hsn` — `StringifiedMessage.UnmarshalNBT` does not
+    panic (C04's `C04_walker_total`; `C08_total_nbt_typed_snbt` is the instance); the typed theorems speak about a
+    FRESH destination (`ty.zero`), `C08_total_nbtfield` about any well-shaped one; JSON: encoding/json's text → tree
+    layer is the parameter `parse` (total, never panics: trusted).
 -/
 import GoMC.Lemmas.NoPanic
+import GoMC.Lemmas.NoPanicFold
 import GoMC.Lemmas.Fields
+import GoMC.Props.C02
+import GoMC.Props.C03
+import GoMC.Props.C12
+import GoMC.Props.C13
+import GoMC.Props.C17
 import GoMC.Props.C07
 import GoMC.Props.CMD
 import GoMC.Props.DYNBT
 import GoMC.Gen.Level
 import GoMC.Gen.Registry
 namespace GoMC.Props.C08
-open GoMC GoMC.Model GoMC.Spec GoMC.Lemmas GoMC.Lemmas.C08
+open GoMC GoMC.Model GoMC.Spec GoMC.Lemmas.C08
+open GoMC.Lemmas hiding noPanic_readAll noPanic_readByte1 noPanic_bool noPanic_byte noPanic_fix noPanic_varLongRead noPanic_string noPanic_byteArray noPanic_longs noPanic_bitSet noPanic_position noPanic_plugin noPanic_lenDec noPanic_decElems noPanic_ary noPanic_option noPanic_pair noPanic_codec
 open GoMC.Lemmas.DynBT (Cons)
 
 /-! ## T1: the reject conditions regenerated from the source are the ones the models use -/
@@ -392,6 +411,151 @@ theorem C08_work_dynbt (fuel : Nat) (tag : Byte) (s : Stream) :
     DynBT.work fuel tag s + 2 * (DynBT.unm fuel tag s).2.flat.length ≤ 2 * s.flat.length + 1 :=
   DYNBT.DYNBT_work fuel tag s
 
+
+/-! ## PART 2 — paletted container (level/palette.go; model and totality proof: C12) -/
+
+/-- `PaletteContainer.ReadFrom` into ANY container (any palette kind, any content) on any source: a value or an error -/
+theorem C08_total_palette (d : Container) (hg0 : 0 ≤ d.cfg.gbits) (hg64 : d.cfg.gbits ≤ 64) (s : Stream) :
+    (d.readFrom s).1 ≠ Res.panic := C12.C12_readFrom_total d hg0 hg64 s
+
+/-- a NEGATIVE palette size, or one above `1 << bits`, of a linear / hash palette is an error and nothing after the
+size is consumed (the repaired `values[:size]` panics: 0996d2c, 22d26db) -/
+theorem C08_neg_palette_size (c : Container) (s s1 s2 : Stream) (b : Byte) (h : Bool) (vals : List Int) (cap : Nat) (bits : Int)
+    (size : BitVec 32) (n : Nat)
+    (hb : Rd.readByte s = (Res.ok b, s1))
+    (hp : c.cfg.create (b.toNat : Int) = .indirect h vals cap bits)
+    (hv : varIntRead s1 = (Res.ok (size, n), s2))
+    (hbad : size.toInt < 0 ∨ size.toInt > (2 : Int) ^ bits.toNat) :
+    (c.readFrom s).1 = Res.err ∧ (c.readFrom s).2.2 = s2 := neg_palette_size c s s1 s2 b h vals cap bits size n hb hp hv hbad
+
+/-- a negative data-array length after any palette is an error, consuming only the prefix -/
+theorem C08_neg_palette_data (c : Container) (s s1 s2 s3 : Stream) (b : Byte) (n1 : Nat) (p : Pal) (l : BitVec 32) (n : Nat)
+    (hb : Rd.readByte s = (Res.ok b, s1))
+    (hp : (c.cfg.create (b.toNat : Int)).readFrom s1 = (Res.ok n1, p, s2))
+    (hl : varIntRead s2 = (Res.ok (l, n), s3)) (hneg : l.toInt < 0) :
+    (c.readFrom s).1 = Res.err ∧ (c.readFrom s).2.2 = s3 := neg_palette_data c s s1 s2 s3 b n1 p l n hb hp hl hneg
+
+/-! ## PART 2 — section, chunk packet, block entity, light block (level/chunk.go; models and totality proofs: C13) -/
+
+open GoMC.Model.Chunk GoMC.Lemmas.ChunkWire in
+theorem C08_total_section (gbS gbB : Int) (sec : WSec) (h : SecSane sec.core) (s : Stream) :
+    (Section.readFrom gbS gbB sec s).1 ≠ Res.panic := (C13.C13_section_readFrom_good gbS gbB sec h).1 s
+
+open GoMC.Model.Chunk GoMC.Lemmas.ChunkWire in
+/-- `Chunk.ReadFrom` into any destination whose containers have a sane registry width (includes the repaired
+height-map panic 1161c7b and the palette panics reached through `PutData`) -/
+theorem C08_total_chunk (gbS gbB : Int) (d : Chunk) (hd : ChunkSane d) (s : Stream) :
+    (Chunk.readFrom gbS gbB d s).1 ≠ Res.panic := C13.C13_readFrom_total gbS gbB d hd s
+
+open GoMC.Model.Chunk GoMC.Lemmas.ChunkWire in
+/-- … with ANY nbt fuel (so: whatever the recursion bound of the nbt models) -/
+theorem C08_total_chunk_fuel (gbS gbB : Int) (fuel : Nat) (d : Chunk) (hd : ChunkSane d) (s : Stream) :
+    (Chunk.readFromF gbS gbB fuel d s).1 ≠ Res.panic := C13.C13_readFrom_total_fuel gbS gbB fuel d hd s
+
+open GoMC.Model.Chunk in
+theorem C08_total_blockentity (e : EntRep) (s : Stream) : (BlockEntity.readFrom e s).1 ≠ Res.panic :=
+  (C13.C13_entity_readFrom_good e).1 s
+
+open GoMC.Model.Chunk in
+theorem C08_total_light (l : LightData) (s : Stream) : (lightC.dec l s).1 ≠ Res.panic :=
+  (C13.C13_light_readFrom_good l).1 s
+
+open GoMC.Model.Chunk GoMC.Lemmas.ChunkWire in
+/-- a height map (MOTION_BLOCKING or WORLD_SURFACE) whose long array does not hold exactly the longs that 256 heights
+of the chunk's width need is an ERROR (it used to reach `NewBitStorage` and panic) — whatever else the packet holds -/
+theorem C08_neg_chunk_heightmap (gbS gbB : Int) (fuel : Nat) (c : Chunk) (hc : ChunkSane c) (s s' : Stream) (r : ChunkRep) (n : Nat)
+    (d : Longs) (want : Int)
+    (hdec : (chunkRepC fuel).dec ((none, none), Slice.nil, c.ents, freshLight) s = (Res.ok (r, n), s'))
+    (hw : calcBitStorageSize (hmBitsOf c.secs.length) 256 = .ok want)
+    (hbad : (r.1.1 = some d ∨ r.1.2 = some d) ∧ (d.length : Int) ≠ want) :
+    Chunk.readFromF gbS gbB fuel c s = (Res.err, s') := neg_chunk_heightmap gbS gbB fuel c hc s s' r n d want hdec hw hbad
+
+open GoMC.Model.Chunk in
+/-- a negative length of the section data array is an error, consuming only the prefix -/
+theorem C08_neg_chunk_data (gbS gbB : Int) (fuel : Nat) (c : Chunk) (s s1 s2 : Stream) (hm : HmVal) (n1 : Nat)
+    (l : BitVec 32) (n : Nat)
+    (h1 : (hmC fuel).dec (none, none) s = (Res.ok (hm, n1), s1))
+    (h2 : varIntRead s1 = (Res.ok (l, n), s2)) (hneg : l.toInt < 0) :
+    Chunk.readFromF gbS gbB fuel c s = (Res.err, s2) := neg_chunk_data gbS gbB fuel c s s1 s2 hm n1 l n h1 h2 hneg
+
+/-! ## PART 2 — the typed nbt decoder behind `pk.NBT` / `NBTField` (models and totality proofs: C02 / C03) -/
+
+/-- `Decode(&v)` with `v` a fresh variable of ANY type of the universe (scalars, strings, slices, arrays, maps, structs
+with any tags and embedding, pointers, interfaces, carriers — nested at will), both formats, with or without
+`DisallowUnknownFields` -/
+theorem C08_total_nbt_typed (cx : Go.SnbtCarrier) (hsn : ∀ tag s, (cx.unmarshal tag s).1 ≠ Res.panic)
+    (net disallow : Bool) (ty : Go.GoType) (s : Stream) : (Go.decodeTyped cx net disallow ty s).1 ≠ Res.panic :=
+  C03.C03_total_typed cx hsn net disallow ty s
+
+/-- … instantiated with C04's model of `StringifiedMessage` -/
+theorem C08_total_nbt_typed_snbt (fm : SNBT.FmtOracle) (tagType : Bytes → Byte) (marshal : Bytes → Res Bytes)
+    (net disallow : Bool) (ty : Go.GoType) (s : Stream) :
+    (Go.decodeTyped { tagType, marshal, unmarshal := SNBT.unmarshalNBT fm } net disallow ty s).1 ≠ Res.panic :=
+  C03.C03_total_typed_snbt fm tagType marshal net disallow ty s
+
+/-- `NBTField{V: &v, AllowUnknownFields: a}.ReadFrom` into a variable of any type holding any well-shaped value -/
+theorem C08_total_nbtfield (cx : Go.SnbtCarrier) (hsn : ∀ tag s, (cx.unmarshal tag s).1 ≠ Res.panic) (allow : Bool)
+    (ty : Go.GoType) (old : Go.GoVal) (hold : GoMC.Lemmas.NBTTotal.Good ty old) (s : Stream) :
+    (Go.fieldRead cx allow ty old s).1 ≠ Res.panic :=
+  C02.C02_field_read_no_panic cx allow ty old (fun tag s => DYNBT.DYNBT_total tag s) hsn hold s
+
+/-- the tree-level entry points: `any`, `map[string]any`, `struct{}` (skipping / refusing unknown fields), `RawMessage` -/
+theorem C08_total_nbt_any (net : Bool) (s : Stream) : (NBT.decodeAny net s).1 ≠ Res.panic := C03.C03_total_any net s
+theorem C08_total_nbt_map (net : Bool) (s : Stream) : (NBT.decodeMap net s).1 ≠ Res.panic := C03.C03_total_map net s
+theorem C08_total_nbt_skip (net : Bool) (s : Stream) : (NBT.decodeSkip net s).1 ≠ Res.panic := C03.C03_total_skip net s
+theorem C08_total_nbt_disallow (net : Bool) (s : Stream) : (NBT.decodeDisallow net s).1 ≠ Res.panic :=
+  C03.C03_total_disallow net s
+theorem C08_total_nbt_raw (net : Bool) (s : Stream) : (NBT.decodeRaw net s).1 ≠ Res.panic := C03.C03_total_raw net s
+
+/-- NEGATIVE lengths are errors.  Decoded into `any` and skipped / captured (C03's theorems) … -/
+theorem C08_neg_nbt_any : type_of% @C03.C03_neg_len_any := @C03.C03_neg_len_any
+theorem C08_neg_nbt_raw : type_of% @C03.C03_neg_len_raw := @C03.C03_neg_len_raw
+theorem C08_neg_nbt_any_list : type_of% @C03.C03_neg_len_any_list := @C03.C03_neg_len_any_list
+theorem C08_neg_nbt_raw_list : type_of% @C03.C03_neg_len_raw_list := @C03.C03_neg_len_raw_list
+
+/-- … and in the typed decoder: the length every byte / int / long array goes through, consuming only the length … -/
+theorem C08_neg_nbt_typed_array (s s' : Stream) (n : BitVec 32) (h : NBT.readInt32 s = (Res.ok n, s')) (hneg : n.msb = true) :
+    Go.arrayLen s = (Res.err, s') := neg_arrayLen s s' n h hneg
+
+/-- … hence a negative byte / int / long array length decoded into ANY slice type, whatever it holds … -/
+theorem C08_neg_nbt_typed_slice (rec : Go.Rec) (e : Go.GoType) (old : Go.GoVal) (tag : Byte) (s s' : Stream) (n : BitVec 32)
+    (htag : tag = 7#8 ∨ tag = 11#8 ∨ tag = 12#8)
+    (h : NBT.readInt32 s = (Res.ok n, s')) (hneg : n.msb = true) : (Go.umSlice rec e old tag s).1 = Res.err :=
+  neg_umSlice rec e old tag s s' n htag h hneg
+
+/-- … the header every list goes through … -/
+theorem C08_neg_nbt_typed_list (s s1 s2 : Stream) (lt : Byte) (n : BitVec 32) (h1 : Rd.readByte s = (Res.ok lt, s1))
+    (h2 : NBT.readInt32 s1 = (Res.ok n, s2)) (hneg : n.msb = true) : (Go.listHeader s).1 = Res.err :=
+  neg_listHeader s s1 s2 lt n h1 h2 hneg
+
+/-- … and every string and tag name -/
+theorem C08_neg_nbt_string (s s' : Stream) (n : BitVec 16) (h : NBT.readInt16 s = (Res.ok n, s')) (hneg : n.msb = true) :
+    NBT.readString s = (Res.err, s') := neg_readString s s' n h hneg
+
+/-! ## PART 2 — JSON text components (chat/jsonmessage.go; tree-level model and totality proof: C17) -/
+
+/-- `JsonMessage.ReadFrom` into any message, for ANY behaviour of encoding/json's text layer (`parse`) -/
+theorem C08_total_chat_json (parse : Bytes → Option JSON) (d : Msg) (s : Stream) :
+    (Chat.jsonMessageRead parse d s).1 ≠ Res.panic := total_chat_json parse d s
+
+/-- a negative String length in front of the JSON text is an error, consuming only the prefix -/
+theorem C08_neg_chat_json (parse : Bytes → Option JSON) (d : Msg) (s s1 : Stream) (l : BitVec 32) (n : Nat)
+    (h : varIntRead s = (Res.ok (l, n), s1)) (hneg : l.toInt < 0) : Chat.jsonMessageRead parse d s = (Res.err, s1) :=
+  neg_chat_json parse d s s1 l n h hneg
+
+/-! ## PART 2 — registries with typed elements (`Registry[nbt.RawMessage]`, chat_type, damage_type, dimension_type) -/
+
+/-- `Registry[E].ReadFrom` for `E` ANY type of the universe: the registry loop over `NBTField{V: &data,
+AllowUnknownFields: true}` with a fresh `data` per entry -/
+theorem C08_total_registry_typed (cx : Go.SnbtCarrier) (hsn : ∀ tag s, (cx.unmarshal tag s).1 ≠ Res.panic) (ty : Go.GoType)
+    (s : Stream) : (Registry.readFrom (Go.fieldRead cx true ty ty.zero) s).1 ≠ Res.panic :=
+  total_registry_typed cx hsn ty s
+
+/-- the negative entry count is an error for every element type (instance of `C08_neg_registry`) -/
+theorem C08_neg_registry_typed (cx : Go.SnbtCarrier) (ty : Go.GoType) (s s1 : Stream) (l : BitVec 32) (n : Nat)
+    (h : varIntRead s = (Res.ok (l, n), s1)) (hneg : l.toInt < 0) :
+    Registry.readFrom (Go.fieldRead cx true ty ty.zero) s = (Res.err, s1) := Reg.neg_readFrom _ h hneg
+
 /-! ## Non-vacuity -/
 
 /-- the element-decoder hypotheses of the registry theorems are met by the `dynbt.Value` instance … -/
@@ -415,6 +579,17 @@ example : ((Registry.readFrom Registry.nbtFieldDyn (Stream.ofBytes [1, 1, 0x61, 
 /-- negative String length `ff ff ff ff 0f` -/
 example : stringDec [] (Stream.ofBytes [0xff, 0xff, 0xff, 0xff, 0x0f, 1, 2]) = (Res.err, Stream.ofBytes [1, 2]) := by
   decide +kernel
+/-- part 2: the destinations the harness uses satisfy the hypotheses: `EmptyChunk(1)` with the real registry widths -/
+example : GoMC.Lemmas.ChunkWire.ChunkSane C13.empty1 :=
+  ⟨by intro s hs
+      have : s = C13.sec0 := by simpa [C13.empty1] using hs
+      subst this
+      exact ⟨by decide, by decide, by decide, by decide⟩, by decide⟩
+/-- a 4-bit linear palette declared with −1 entries (the input that used to panic): an error -/
+example : ((Container.new ⟨.blocks, 15⟩ 4096 0).readFrom (Stream.ofBytes [4, 0xff, 0xff, 0xff, 0xff, 0x0f])).1 = Res.err := by
+  decide +kernel
+/-- a root TAG_Int_Array of length −1 read through `pk.NBT(&v)` with `v []int32` -/
+example : (Go.arrayLen (Stream.ofBytes [0xff, 0xff, 0xff, 0xff])).1 = Res.err := by decide +kernel
 example : consuming (.ary .varint (.opt0 .long)) = true ∧ consuming (.opt0 .long) = false ∧
     consuming (.pair .unit (.fixedbits 0)) = false := by decide
 
